@@ -25,6 +25,7 @@ from .values import (
     to_integer_or_infinity,
     relative_index,
     to_string,
+    array_to_string,
     js_typeof,
 )
 from .errors import (
@@ -1304,18 +1305,12 @@ class VM:
                 arr._elements.insert(i, arg)
             return arr.length
 
-        def array_elem_to_string(elem):
-            # undefined and null convert to empty string in array join/toString
-            if elem is UNDEFINED or elem is NULL:
-                return ""
-            return to_string(elem)
-
         def toString_fn(*args):
-            return ",".join(array_elem_to_string(elem) for elem in arr._elements)
+            return array_to_string(arr)
 
         def join_fn(*args):
             sep = "," if not args or args[0] is UNDEFINED else to_string(args[0])
-            return sep.join(array_elem_to_string(elem) for elem in arr._elements)
+            return array_to_string(arr, sep)
 
         def callback_arg(args):
             """The callback argument of an iteration method; it must be callable."""
